@@ -277,7 +277,101 @@ func (g *pgen) genDyn(m *pMsg, mds map[string]*desc.MessageDescriptor, depth int
 	return dm
 }
 
+// sub messages whose length prefix changes width when they are cut: a source sub message of 100 / 200 / 20000 / 70000
+// bytes (prefix 1 / 2 / 3 / 3 bytes) keeps only a tiny field in the target (prefix 1 byte), as a message field, a list
+// element, a map value, at depth 1 and at depth 2 (where the enclosing sub message shrinks as well)
+func genC11ProtoBig(r *rng) {
+	g := &pgen{r: r.fork()}
+	mkInner := func(withBig bool) *pMsg {
+		m := g.newMsg()
+		nm := strings.ToLower(m.Name)
+		if withBig {
+			m.Fields = append(m.Fields, &pFld{Num: 1, Name: "f" + nm + "x1", Kind: "bytes"})
+		}
+		m.Fields = append(m.Fields, &pFld{Num: 2, Name: "f" + nm + "x2", Kind: "int32"})
+		m.Fields = append(m.Fields, &pFld{Num: 3, Name: "f" + nm + "x3", Msg: m})
+		return m
+	}
+	mkRoot := func(in *pMsg) *pMsg {
+		m := g.newMsg()
+		nm := strings.ToLower(m.Name)
+		m.Fields = []*pFld{
+			{Num: 1, Name: "f" + nm + "x1", Msg: in},
+			{Num: 2, Name: "f" + nm + "x2", Msg: in, Rep: true},
+			{Num: 3, Name: "f" + nm + "x3", Msg: in, MapK: "string"},
+			{Num: 4, Name: "f" + nm + "x4", Kind: "int32"},
+		}
+		return m
+	}
+	src, dst := mkInner(true), mkInner(false)
+	from, to := mkRoot(src), mkRoot(dst)
+	text := g.protoText(from, to)
+	svc, err := proto.NewDescritorFromContent(context.Background(), "big.proto", text, map[string]string{})
+	if err != nil {
+		die("big proto does not parse (dynamicgo): %v\n%s", err, text)
+	}
+	req := svc.LookupMethodByName("M").Input()
+	fd, td := req.Message().ByNumber(1).Type(), req.Message().ByNumber(2).Type()
+	p := protoparse.Parser{Accessor: protoparse.FileContentsFromMap(map[string]string{"big.proto": text})}
+	fds, err := p.ParseFiles("big.proto")
+	if err != nil {
+		die("big proto does not parse (reference): %v", err)
+	}
+	srcMD, fromMD := fds[0].FindMessage("pb.cut."+src.Name), fds[0].FindMessage("pb.cut."+from.Name)
+	table := g.tableFields()
+	var inner func(size int, depth int) *dynamic.Message
+	inner = func(size int, depth int) *dynamic.Message {
+		m := dynamic.NewMessage(srcMD)
+		if depth <= 1 {
+			m.SetFieldByNumber(1, r.bytes(size))
+			m.SetFieldByNumber(2, int32(7))
+			return m
+		}
+		m.SetFieldByNumber(2, int32(depth))
+		m.SetFieldByNumber(3, inner(size, depth-1))
+		return m
+	}
+	for _, size := range []int{100, 200, 20000, 70000} {
+		for place := 0; place < 3; place++ {
+			for depth := 1; depth <= 2; depth++ {
+				dm := dynamic.NewMessage(fromMD)
+				sz := size - r.intn(3)
+				switch place {
+				case 0:
+					dm.SetFieldByNumber(1, inner(sz, depth))
+				case 1:
+					dm.SetFieldByNumber(2, []interface{}{inner(sz, depth), inner(5, 1)})
+				default:
+					dm.SetFieldByNumber(3, map[interface{}]interface{}{"k": inner(sz, depth)})
+				}
+				dm.SetFieldByNumber(4, int32(1))
+				buf, err := dm.Marshal()
+				if err != nil {
+					die("reference marshal (big): %v", err)
+				}
+				bits := r.intn(2)
+				opts := &pgeneric.Options{DisallowUnknown: false}
+				v := pgeneric.NewRootValue(fd, buf)
+				var outb []byte
+				var e error
+				ec := 0
+				if ok, _ := noPanic(func() { outb, e = v.MarshalTo(td, opts) }); !ok {
+					ec = 9
+					outb = nil
+				} else {
+					ec = errClass(e)
+				}
+				_ = bits
+				f := append([]string(nil), table...)
+				f = append(f, fi(from.idx), fi(to.idx), fi(0), fx(buf), fi(ec), fx(outb))
+				out.emit(1102, f...)
+			}
+		}
+	}
+}
+
 func genC11Proto(r *rng, n int) {
+	genC11ProtoBig(r.fork())
 	nv := n / 6
 	if nv < 3 {
 		nv = 3
